@@ -13,7 +13,6 @@ import (
 	"path/filepath"
 	"strconv"
 	"strings"
-	"sync"
 	"syscall"
 
 	"github.com/MinterTeam/minter-go-sdk/v2/api/http_client"
@@ -127,6 +126,7 @@ type harness struct {
 	txCount   int
 	specs     map[uint64][]string // height -> tx specs (for the monitor)
 	start     cursor
+	base      cursor
 	viol      []violation
 	ops       []string
 	stats     map[string]int
@@ -161,37 +161,33 @@ func (h *harness) runResync(ack uint64) ([]cursor, cursor) {
 		panic(err)
 	}
 	defer os.Remove(path)
+	// keep both ends of the FIFO open for the whole run: Commit's WriteFile never blocks and
+	// every write (an atomic pipe write) is decoded in order as one JSON object
+	fifo, err := os.OpenFile(path, os.O_RDWR, 0)
+	if err != nil {
+		panic(err)
+	}
+	defer fifo.Close()
 	var log []cursor
-	var mu sync.Mutex
 	done := make(chan struct{})
-	stop := make(chan struct{})
+	const sentinel = ^uint64(0)
 	go func() {
 		defer close(done)
+		dec := json.NewDecoder(fifo)
 		for {
-			f, err := os.OpenFile(path, os.O_RDONLY, 0)
-			if err != nil {
-				return
-			}
-			data, _ := readAll(f)
-			f.Close()
-			if string(data) == "STOP" {
-				return
-			}
 			var c cursor
-			if json.Unmarshal(data, &c) == nil {
-				mu.Lock()
-				log = append(log, c)
-				mu.Unlock()
-			}
-			select {
-			case <-stop:
+			if err := dec.Decode(&c); err != nil {
 				return
-			default:
 			}
+			if c.LastCheckedMinterBlock == sentinel {
+				return
+			}
+			log = append(log, c)
 		}
 	}()
 	res := minter.GetLatestMinterBlockAndNonce(ctx, ack)
-	os.WriteFile(path, []byte("STOP"), 0o600)
+	end, _ := json.Marshal(cursor{LastCheckedMinterBlock: sentinel})
+	fifo.Write(end)
 	<-done
 	final := cursor{res.LastCheckedMinterBlock(), res.LastEventNonce(), res.LastBatchNonce(), res.LastValsetNonce()}
 	return log, final
@@ -234,7 +230,9 @@ func (h *harness) exec(line string) string {
 		h.node.blocks = append(h.node.blocks, b)
 		return "ok"
 	case "m_resync":
+		base := h.persisted
 		log, final := h.runResync(u(w[1]))
+		h.base = base
 		h.lastLog = log
 		if len(log) > 0 {
 			h.persisted = log[len(log)-1]
@@ -296,11 +294,18 @@ func (h *harness) report(class, detail string) {
 	h.viol = append(h.viol, violation{Property: "C20", Class: class, Detail: detail, OpIndex: len(h.ops) - 1})
 }
 
+// Every persisted cursor must be consistent.  Consistency is judged relative to the cursor the scan
+// started from (itself a persisted cursor, judged when it was written), so that one inconsistent
+// cursor is reported once and not again for everything that follows it.
 func (h *harness) monitorCommits(log []cursor) {
 	for _, c := range log {
-		n := h.start.LastEventNonce
+		if c.LastCheckedMinterBlock < h.base.LastCheckedMinterBlock {
+			h.report("cursor-moved-backwards", fmt.Sprintf("persisted %s from %s", c, h.base))
+			continue
+		}
+		n := h.base.LastEventNonce
 		for _, b := range h.node.blocks {
-			if b.Height > h.start.LastCheckedMinterBlock && b.Height <= c.LastCheckedMinterBlock {
+			if b.Height > h.base.LastCheckedMinterBlock && b.Height <= c.LastCheckedMinterBlock {
 				for _, s := range h.specs[b.Height] {
 					if h.counts(s) {
 						n++
@@ -320,7 +325,7 @@ func (h *harness) monitorCommits(log []cursor) {
 			if k >= 2 && c.LastEventNonce > n && c.LastEventNonce < n+uint64(k) {
 				cls = "early-return-inside-a-block-keeps-counted-events"
 			}
-			h.report(cls, fmt.Sprintf("persisted %s but start nonce %d + bridge events up to block %d = %d", c, h.start.LastEventNonce, c.LastCheckedMinterBlock, n))
+			h.report(cls, fmt.Sprintf("persisted %s but scan start %s + bridge events up to block %d gives nonce %d", c, h.base, c.LastCheckedMinterBlock, n))
 		}
 	}
 }
@@ -347,6 +352,11 @@ func (h *harness) monitorCmd(w []string, accepted bool) {
 func genHistory(r *rand.Rand, h *harness, nops int, do func(string) string) {
 	do("m_reset")
 	startBlock := uint64(r.Intn(3))
+	// the node is never behind the saved cursor (lastChecked > latest makes the scan's
+	// unsigned block-count underflow and the connector spin; outside the property)
+	for b := uint64(1); b <= startBlock; b++ {
+		do(fmt.Sprintf("m_block %d send:1:1:1;other", b))
+	}
 	do(fmt.Sprintf("m_start %d %d %d %d", startBlock, 1+r.Intn(5), 1+r.Intn(3), r.Intn(3)))
 	height := startBlock
 	emitted := uint64(0)
